@@ -5,14 +5,15 @@ import torch
 from hypothesis import strategies as st
 
 from vlib import aggs, refs
-from vlib.matrices import FAMILIES, SEEDS, eps_of, matrices, smax
+from vlib.matrices import FAMILIES, SEEDS, eps_of, extra_cols_strategy, matrices, smax, widen
 from vlib.runner import RAISED, Outcome, Part
 
 ID = "C03"
 RULE = (
     "Hypothesis-generated (J, u, norm_eps, reg_eps, dtype): J from ten matrix families (grid, Gaussian, prescribed "
     "SVD, low rank, near-antiparallel pair, duplicated rows, zero rows, stationary, entrywise non-negative, row "
-    "norms over 12 decades), 1<=m<=7, 1<=n<=10, global scale 10^[-6,6] or rescaled to s = {1e-3,0.5,0.9} x norm_eps; "
+    "norms over 12 decades), 1<=m<=7, 1<=n<=10 (one case in four widened by 90 / 1500 Gaussian or 3000 zero columns), rescaled to "
+    "s = 10^[0.05,9] x norm_eps (70%) or {1e-3,0.5,0.9} x norm_eps (30%); "
     "u in {None, uniform, random over 3 decades with optional zeros}; norm_eps in 10^[-8,-1], reg_eps in "
     "10^[-10,-1]. Oracle: exhaustive active-set enumeration (2^m KKT systems, NumPy float64) of "
     "min v^T(JJ^T/s^2 + reg_eps I)v s.t. v >= u; compares A(J) with J^T w* and A.weighting(J) with w*. "
@@ -53,16 +54,18 @@ def _case(draw):
         pref = v.tolist()
     norm_eps = 10.0 ** draw(st.integers(-8, -1))
     reg_eps = 10.0 ** draw(st.integers(-10, -1))
+    extra = draw(extra_cols_strategy())
+    xseed = draw(SEEDS)
     # s relative to norm_eps: mostly above (10^[0.05, 9] x norm_eps), sometimes below (1e-3, 0.5, 0.9 x norm_eps)
     rel = draw(st.sampled_from([None, None, None, None, None, None, None, 1e-3, 0.5, 0.9]))
     if rel is None:
         rel = 10.0 ** draw(st.floats(0.05, 9.0))
     J = np.array(mc["J"])
-    s = smax(J)
+    s = smax(widen(J, extra, xseed))
     if s > 0:
         J = J * (rel * norm_eps / s)
     return {"agg": agg, "J": J.tolist(), "dtype": mc["dtype"], "family": mc["family"], "pref": pref,
-            "norm_eps": norm_eps, "reg_eps": reg_eps}
+            "norm_eps": norm_eps, "reg_eps": reg_eps, "extra_cols": extra, "xseed": xseed}
 
 
 def parts(tier):
@@ -91,10 +94,12 @@ def run_case(case) -> Outcome:
     out = Outcome()
     dtype, agg = case["dtype"], case["agg"]
     eps = eps_of(dtype)
-    Jt = torch.tensor(case["J"], dtype=getattr(torch, dtype))
+    Jt = torch.tensor(widen(np.array(case["J"]), case.get("extra_cols"), case.get("xseed", 0)), dtype=getattr(torch, dtype))
     J = Jt.double().numpy()
     m, n = J.shape
     s = smax(J)
+    if case.get("extra_cols"):
+        out.cls("wide")
     if not np.isfinite(J).all() or (s > 0 and (s * s * n > 1e30 if dtype == "float32" else False)):
         out.excluded = "overflow"
         return out
